@@ -347,91 +347,137 @@ def _r2_r5(ctx, m):
     fn = pkg.method("TemplateLoader", "render")
     ctx.saw(FILE, "TemplateLoader.render")
     rf = Flow(fn, FILE)
-    pat = None
-    for name, lst in rf.assigns.items():
-        for v, loops, guards, line, seq in lst:
-            v = simp(v)
-            if v[0] == "comp" and v[2][0] == "ifexp" and guards and any("jac_pattern" in show(g) for g, _ in guards):
-                pat = (v, line, guards)
-    if pat is None:
-        ctx.missing("R5", "pattern-writer", (FILE, fn.lineno), "jac_pattern branch of TemplateLoader.render not found")
-    else:
-        v, line, guards = pat
-        tg, it, ifs = v[3][0]
-        e = v[2]
-        src_ok = simp(it) == ("attr", ("attr", ("global", "ode") if False else rf.env.get("ode", ("global", "ode")), "jac"), "rhs") or show(simp(it)).endswith(".jac.rhs")
-        c = e[1]
-        lit = None
-        form_ok = False
-        if c[0] == "cmp" and len(c[1]) == 1 and c[2][0] == tg and c[2][1][0] == "const":
-            lit = c[2][1][1]
-            if c[1][0] == "Eq":
-                form_ok = e[2] == ("const", 0) and e[3] == ("const", 1)
-            elif c[1][0] == "NotEq":
-                form_ok = e[2] == ("const", 1) and e[3] == ("const", 0)
-        sent[("pattern writer", FILE, line)] = lit
-        ctx.check(src_ok and form_ok and not ifs, "R5", "pattern-marks", (FILE, line),
-                  "pattern = [0 if entry == sentinel else 1 for entry in ode.jac.rhs] -- marks exactly the stored entries",
-                  found=show(v)[:140])
-        # rows
-        # locals by role: the text written to jac_pattern.dat is "\n".join(<rows>); a row is " ".join(str(e) for e in <row data>)
-        rows_name = None
-        for f in rf.facts:
-            if f.kind == "call" and f.target == "write" and f.value and "jac_pattern.dat" in show(f.value[1]):
-                a = simp(f.value[3][0]) if f.value[3] else None
-                if a and a[0] == "join" and a[2][0] == "acc":
-                    rows_name = a[2][1]
-        rd = []
-        rows_val = None
-        for f in rf.facts:
-            if f.kind == "call" and f.target == "write" and f.value and "jac_pattern.dat" in show(f.value[1]):
-                a = simp(f.value[3][0]) if f.value[3] else None
-                if a and a[0] == "join" and a[2][0] == "comp":
-                    rows_val = a[2]
-        if rows_val is not None and len(rows_val[3]) == 1 and simp(rows_val[2])[0] == "join":
-            # the rows as one comprehension: [" ".join(str(e) for e in pattern[r*n:(r+1)*n]) for r in range(n)]
-            e_ = simp(rows_val[2])
-            if e_[2][0] == "comp" and len(e_[2][3]) == 1:
-                tg_, it_, ifs_ = rows_val[3][0]
-
-                class _L:       # duck-typed loop record
-                    pass
-                lp_ = _L()
-                lp_.iter, lp_.id = it_, None
-                rd.append((subst_(e_[2][3][0][1], {tg_: ("elem", simp(it_), None)}), [lp_], (), getattr(fn, "lineno", 0), None))
-        for f in rf.facts:
-            if f.kind == "append" and f.target == rows_name:
-                a = simp(f.value)
-                if a[0] == "join" and a[2][0] == "comp" and len(a[2][3]) == 1:
-                    rd.append((a[2][3][0][1], f.loops, f.guards, f.line, None))
-        role_names = {rows_name} | {nm for nm, lst in rf.assigns.items() for val, *_ in lst if simp(val) == v or (rd and simp(val) == simp(rd[-1][0]))}
-        ok = False
-        found = ""
-        if rd:
-            val, loops, g2, l2, _ = rd[-1]
-            val = simp(val)
-            found = show(val)[:140]
-            b = match(("sub", V("p"), ("slice", ("binop", "Mult", V("r"), V("n")), ("binop", "Mult", ("binop", "Add", V("r"), ("const", 1)), V("n")), ("const", None))), val)
-            if b and len(loops) == 1:
-                lp = loops[0]
-                itr = simp(lp.iter)
-                nrow = show(b["n"]).endswith(".jac.nrow")
-                ok = nrow and b["r"] == ("elem", itr, lp.id) and itr == ("call", ("global", "range"), (b["n"],), ()) and b["p"] == v
-        ctx.check(ok, "R5", "pattern-rows", (FILE, rd[-1][3] if rd else line),
-                  "row r of the file is pattern[r*nrow:(r+1)*nrow] for r in range(nrow), nrow = ode.jac.nrow", found=found)
-    # nothing edits the pattern after it was derived from the entries
-    if pat is not None:
-        muts = [f for f in rf.facts if f.target in role_names and f.kind in ("store", "augstore", "mutate", "remove")]
-        ctx.check(not muts, "R5", "pattern-unedited", (FILE, muts[0].line if muts else pat[1]),
-                  "the pattern rows are written exactly as derived from the Jacobian entries" if not muts else
-                  f"the pattern is edited after it was derived from the entries (`{muts[0].kind}` on `{muts[0].target}` at line {muts[0].line}): jac_pattern.dat marks entries the generated "
-                  "Jacobian never stores (or hides stored ones)")
+    _pattern_writer(ctx, rf, fn, sent)
     # R2 verdict
     W = (FILE, m.func.lineno)
     ctx.floor("R2", "sentinel sites", len(sent), 6 if "csr_sentinel" not in ctx.stats else 7, W)
     vals = set(sent.values())
     for (label, rel, line), lit in sorted(sent.items()):
         ctx.check(lit == "0.0", "R2", f"sentinel:{label}", (rel, line), f"{label} uses the sentinel '0.0'", expected="'0.0'", found=repr(lit))
+
+
+def _pattern_writer(ctx, rf, fn, sent):
+    """R5.  The text written to jac_pattern.dat, read as a value:
+         "\\n".join( ROW(r) for r in range(nrow) ),   ROW(r) = " ".join( MARK(e) for e in ode.jac.rhs[r*nrow : (r+1)*nrow] ),
+         MARK(e) = 0 if e == sentinel else 1   (as int through str(), or as the strings "0" / "1")
+    whichever way it is spelled: rows appended in a loop or built by a comprehension, the marks computed first for the whole table
+    and sliced afterwards or computed on the slice, row starts pre-computed, intermediate locals or none."""
+    from ..odemodel import poly
+    from ..valueflow import as_map
+    W = (FILE, fn.lineno)
+    writes = [f for f in rf.facts if f.kind == "call" and f.target == "write" and f.value and "jac_pattern.dat" in show(f.value[1]) and f.value[3]]
+    if len(writes) != 1 or not any("jac_pattern" in show(g) for g, _ in writes[0].guards):
+        ctx.missing("R5", "pattern-writer", W, "jac_pattern branch of TemplateLoader.render (one write to jac_pattern.dat under `if jac_pattern`) not found")
+        return
+    w = writes[0]
+    wg = [(simp(g), p) for g, p in w.guards]
+    text = simp(w.value[3][0])
+    if not (text[0] == "join" and text[1] == ("const", "\n")):
+        ctx.unrec("R5", "pattern-rows", (FILE, w.line), f"the text written to jac_pattern.dat is not a newline-join of rows: {show(text)[:100]}")
+        return
+    rows = text[2]
+    chain = set()           # locals the rows are accumulated in
+    if rows[0] == "acc":
+        chain.add(rows[1])
+        inits = [f for f in rf.facts if f.kind == "init" and f.target == rows[1]]
+        apps = [f for f in rf.facts if f.kind == "append" and f.target == rows[1]]
+        if len(inits) != 1 or simp(inits[0].value) != ("list", ()) or len(apps) != 1 or len(apps[0].loops) != 1 \
+                or [(simp(g), p) for g, p in apps[0].guards] != wg:
+            ctx.unrec("R5", "pattern-rows", (FILE, w.line), f"the rows are accumulated in `{rows[1]}` in a way that is not one unconditional append per iteration of one loop")
+            return
+        lp = apps[0].loops[0]
+        rdom = simp(lp.iter)
+        rvar = ("elem", rdom, lp.id)
+        rowv = simp(apps[0].value)
+        rline = apps[0].line
+    else:
+        mm = as_map(rows) if rows[0] == "comp" else None
+        if mm is None or mm[3]:
+            ctx.unrec("R5", "pattern-rows", (FILE, w.line), f"the rows are not one row per element of a sequence: {show(rows)[:100]}")
+            return
+        bv, body, rdom, _ = mm
+        rdom = simp(rdom)
+        rvar = ("elem", rdom, None)
+        rowv = simp(subst_(body, {bv: rvar}))
+        rline = w.line
+    # one row per r in range(nrow)
+    dom_ok = rdom[0] == "call" and rdom[1] == ("global", "range") and len(rdom[2]) == 1 and not rdom[3]
+    if not dom_ok:
+        ctx.unrec("R5", "pattern-rows", (FILE, rline), f"rows range over {show(rdom)[:80]}, not over range(<n>)")
+        return
+    n = rdom[2][0]
+    if not (rowv[0] == "join" and rowv[1] == ("const", " ")):
+        ctx.unrec("R5", "pattern-rows", (FILE, rline), f"a row is not a blank-join of marks: {show(rowv)[:100]}")
+        return
+    cm = as_map(rowv[2])
+    if cm is None or cm[3]:
+        ctx.unrec("R5", "pattern-rows", (FILE, rline), f"the marks of a row are not one per element of a sequence: {show(rowv[2])[:100]}")
+        return
+    cbv, cbody, cbase, _ = cm
+    cbase = simp(cbase)
+
+    def edited(name):
+        # the row / the marks were edited in place after they were derived from the entries
+        muts = [f for f in rf.facts if f.target == name and f.kind in ("store", "augstore", "mutate", "remove")]
+        if not muts:
+            return ctx.unrec("R5", "pattern-rows", (FILE, rline), f"`{name}` is filled piecemeal; the pattern is not reconstructible as a value")
+        ctx.bad("R5", "pattern-unedited", (FILE, muts[0].line if muts else rline),
+                f"the pattern is edited after it was derived from the entries (`{muts[0].kind if muts else 'edit'}` on `{name}`" + (f" at line {muts[0].line}" if muts else "")
+                + "): jac_pattern.dat marks entries the generated Jacobian never stores (or hides stored ones)")
+    if cbase[0] == "acc":
+        return edited(cbase[1])
+    if not (cbase[0] == "sub" and cbase[2][0] == "slice"):
+        ctx.unrec("R5", "pattern-rows", (FILE, rline), f"a row is not cut from a sequence by a slice: {show(cbase)[:100]}")
+        return
+    src, sl = cbase[1], cbase[2]
+    # marks computed for the whole table first and sliced afterwards: [f(x) for x in T][a:b] = [f(x) for x in T[a:b]]
+    if src[0] == "comp":
+        im = as_map(src)
+        if im is None or im[3]:
+            ctx.bad("R5", "pattern-marks", (FILE, rline), "the marks are computed from a FILTERED view of the Jacobian entries: positions in the pattern no longer "
+                    "correspond to positions in the table" if im is not None else f"mark list not understood: {show(src)[:100]}", found=show(src)[:140])
+            return
+        cbody = simp(subst_(cbody, {cbv: im[1]}))
+        cbv, src = im[0], simp(im[2])
+    if src[0] == "acc":
+        return edited(src[1])
+    src_ok = show(src).endswith(".jac.rhs")
+    # the mark of one entry
+    mark = cbody
+    if mark[0] == "call" and mark[1] == ("global", "str") and len(mark[2]) == 1 and not mark[3]:
+        mark = mark[2][0]
+    lit = None
+    form = None
+    if mark[0] == "ifexp" and mark[1][0] == "cmp" and len(mark[1][1]) == 1 and mark[1][1][0] in ("Eq", "NotEq") and mark[1][2][0] == cbv and mark[1][2][1][0] == "const" \
+            and mark[2][0] == "const" and mark[3][0] == "const":
+        lit = mark[1][2][1][1]
+        a_, b_ = (mark[2][1], mark[3][1]) if mark[1][1][0] == "Eq" else (mark[3][1], mark[2][1])       # (value for a sentinel entry, value otherwise)
+        if (a_, b_) in ((0, 1), ("0", "1")) and type(a_) is type(b_) and not isinstance(a_, bool):
+            form = True
+        elif (a_, b_) in ((1, 0), ("1", "0")):
+            form = False
+    sent[("pattern writer", FILE, rline)] = lit
+    if form is None or not src_ok:
+        ctx.unrec("R5", "pattern-marks", (FILE, rline), f"mark of an entry not understood: {show(cbody)[:100]} over {show(src)[:60]}")
+        return
+    ctx.check(form, "R5", "pattern-marks", (FILE, rline),
+              "mark = 0 if entry == sentinel else 1, for every entry of ode.jac.rhs -- marks exactly the stored entries",
+              expected="0 if entry == '0.0' else 1", found=show(cbody)[:140])
+    # the slice of row r
+    lo = poly(sl[1]) if sl[1] != ("const", None) else {}
+    hi = poly(sl[2]) if sl[2] != ("const", None) else None
+    want_lo = poly(("binop", "Mult", rvar, n))
+    want_hi = poly(("binop", "Add", ("binop", "Mult", rvar, n), n))
+    ok = sl[3] == ("const", None) and lo == want_lo and hi == want_hi and show(n).endswith(".jac.nrow")
+    ctx.check(ok, "R5", "pattern-rows", (FILE, rline),
+              "row r of the file is pattern[r*nrow:(r+1)*nrow] for r in range(nrow), nrow = ode.jac.nrow", found=show(cbase)[:140])
+    # nothing edits the pattern after it was derived from the entries: no in-place edit of a local of this branch
+    local = {nm for nm, lst in rf.assigns.items() for val, loops, guards, line, seq in lst if [(simp(g), p) for g, p in guards][:len(wg)] == wg and wg}
+    muts = [f for f in rf.facts if f.target in (local | chain) and f.kind in ("store", "augstore", "mutate", "remove") ]
+    ctx.check(not muts, "R5", "pattern-unedited", (FILE, muts[0].line if muts else rline),
+              "the pattern rows are written exactly as derived from the Jacobian entries" if not muts else
+              f"the pattern is edited after it was derived from the entries (`{muts[0].kind}` on `{muts[0].target}` at line {muts[0].line}): jac_pattern.dat marks entries the generated "
+              "Jacobian never stores (or hides stored ones)")
 
 
 # ------------------------------------------------------------------ R3
@@ -688,6 +734,10 @@ MUTANTS = [
     {"name": "nequations-macro", "file": MACROS, "old": "#define NEQUATIONS (NSPECIES + THERMAL)", "new": "#define NEQUATIONS (NSPECIES)", "rules": ["R4"]},
 ]
 BENIGN = [
+    {"name": 'pattern-marks-on-the-slice', "file": T, "old": '            pattern = [0 if j == "0.0" else 1 for j in jacrhs]\n\n            rowpattern = []\n            for row in range(n_eqns):\n                rowdata = pattern[row * n_eqns : (row + 1) * n_eqns]\n                rowpattern.append(" ".join(str(e) for e in rowdata))\n',
+     "new": '            rowpattern = [\n                " ".join("0" if elem == "0.0" else "1" for elem in jacrhs[row * n_eqns : (row + 1) * n_eqns])\n                for row in range(n_eqns)\n            ]\n'},
+    {"name": 'pattern-string-flags-rowstarts', "file": T, "old": '            pattern = [0 if j == "0.0" else 1 for j in jacrhs]\n\n            rowpattern = []\n            for row in range(n_eqns):\n                rowdata = pattern[row * n_eqns : (row + 1) * n_eqns]\n                rowpattern.append(" ".join(str(e) for e in rowdata))\n',
+     "new": '            flags = ["1" if elem != "0.0" else "0" for elem in ode.jac.rhs]\n            rowstarts = [row * n_eqns for row in range(n_eqns)]\n            rowpattern = [" ".join(flags[start : start + n_eqns]) for start in rowstarts]\n'},
     {"name": "csr-rowslice-enumerate-count-by-len", "file": T, "old": '        nnz = 0\n\n        for row in range(n_eqns):\n            spjacrptr.append(nnz)\n            for col in range(n_eqns):\n                elem = jacrhs[row * n_eqns + col]\n                if elem != "0.0":\n                    spjaccval.append(col)\n                    spjacdata.append(f"{elem}")\n                    nnz += 1\n        spjacrptr.append(nnz)\n',
      "new": '        for row in range(n_eqns):\n            spjacrptr.append(len(spjacdata))\n            for col, elem in enumerate(jacrhs[row * n_eqns + 0 : (row + 1) * n_eqns]):\n                if elem == "0.0":\n                    continue\n                spjaccval.append(col)\n                spjacdata.append(elem)\n        nnz = len(spjacdata)\n        spjacrptr.append(nnz)\n'},
     {"name": "initjac-join-without-map", "file": JAC, "old": " | map('string') | join(", "new": " | join(", "count": 2},
